@@ -260,7 +260,7 @@ func c36(r *core.Run) {
 					return false
 				}
 				fv, ok := p.(*ssa.FreeVar)
-				return ok && fv.Name() == "err"
+				return ok && isErrResultOf(cl, fv)
 			}
 			failed, _ := core.AtomEdges(cl, func(base ssa.Value) (bool, bool) {
 				x, eq, ok := core.NilCmp(base)
